@@ -45,8 +45,9 @@ class UpScoreboard:
     chunk length (when reported), param = param of the chunk's last sub-word (when checked).  Lanes beyond the
     token count are unspecified.  A word is available no earlier than the cycle after its last sub-word."""
 
-    def __init__(self, r, nb, pw=0, reverse=False, vtc=False, check_param=True, lane_of=None):
+    def __init__(self, r, nb, pw=0, reverse=False, vtc=False, check_param=True, lane_of=None, max_words=1):
         self.r, self.nb, self.pw, self.reverse, self.vtc = r, nb, pw, reverse, vtc
+        self.max_words = max_words      # complete words that may wait inside the element (None: unbounded)
         self.check_param = check_param
         self.lane_of = lane_of          # optional: (source number, physical lane) -> lane value
         self.cur = []
@@ -84,8 +85,8 @@ class UpScoreboard:
             if len(self.cur) == r or l:
                 self.words.append(self.cur)
                 self.cur = []
-        if msg is None and len(self.words) > 1:
-            msg = "more than one complete word in flight"
+        if msg is None and self.max_words is not None and len(self.words) > self.max_words:
+            msg = "more than %d complete word(s) in flight" % self.max_words
         return msg
 
 
